@@ -108,7 +108,10 @@ class FitYamlWriter(YamlWriterMixin, FitDReprBase):
         if _cost_function_identifier is not None:
             _yaml_doc["cost_function"] = _cost_function_identifier
         else:
-            _yaml_doc["cost_function"] = _process_function_code_for_dump(inspect.getsource(fit._cost_function.func))
+            _source_code = getattr(fit._cost_function.func, "source_code", None)  # set when read from a file
+            if _source_code is None:
+                _source_code = inspect.getsource(fit._cost_function.func)
+            _yaml_doc["cost_function"] = _process_function_code_for_dump(_source_code)
 
         if fit.dynamic_error_algorithm != "nonlinear":  # only written if not the default
             _yaml_doc["dynamic_error_algorithm"] = fit.dynamic_error_algorithm
@@ -212,7 +215,9 @@ class FitYamlReader(YamlReaderMixin, FitDReprBase):
             else:
                 _lookup_dict = STRING_TO_COST_FUNCTION
             if _cost_function not in _lookup_dict:
-                _cost_function = _parse_function(_cost_function)
+                _cost_function_source = _cost_function
+                _cost_function = _parse_function(_cost_function_source)
+                _cost_function.source_code = _cost_function_source  # keeps the fit writable
 
         _minimizer = yaml_doc.pop("minimizer", None)
         _minimizer_kwargs = yaml_doc.pop("minimizer_kwargs", None)
